@@ -17,7 +17,7 @@
     All decimal work is done exactly:  a finite float is decoded to (s, m, e)
     with value (-1)^s * m * 2^e and from then on only integers are used. *)
 
-From Coq Require Import ZArith NArith List Bool Lia Uint63 Floats.
+From Coq Require Import ZArith NArith List Bool Uint63 Floats.
 Import ListNotations.
 Local Open Scope Z_scope.
 
@@ -88,10 +88,10 @@ Definition digit_chr (d : Z) : N := Z.to_N (d + 48).
 Definition ascii_lower (c : N) : N :=
   if (65 <=? c)%N && (c <=? 90)%N then (c + 32)%N else c.
 
-Fixpoint str_eqb (a b : list N) : bool :=
+Fixpoint fio_str_eqb (a b : list N) : bool :=
   match a, b with
   | [], [] => true
-  | x :: a', y :: b' => (x =? y)%N && str_eqb a' b'
+  | x :: a', y :: b' => (x =? y)%N && fio_str_eqb a' b'
   | _, _ => false
   end.
 
@@ -458,8 +458,8 @@ Definition shortest_digits (m e : Z) : list Z * Z :=
   let st := dragon_init m e in
   let '(racc, carry) :=
     dragon_loop 20 (Z.even m) (dg_R st) (dg_S st) (dg_Mp st) (dg_Mm st) [] in
-  (* after a carry the list is 1 0 0 ... 0: drop the trailing zero digit(s)
-     is not needed for positional output, but keep the list minimal *)
+  (* A carry out of the top digit (9..9 -> 10..0) cannot actually happen,
+     because k is chosen with high <= 10^k; it is handled as Rust does. *)
   let k := if carry then dg_k st + 1 else dg_k st in
   (rev racc, k).
 
@@ -473,15 +473,6 @@ Definition digits_to_dec_str (ds : list Z) (k : Z) : list N :=
     firstn (Z.to_nat k) cs ++ ch_dot :: skipn (Z.to_nat k) cs
   else cs ++ rep_app ch_0 (k - n) [].
 
-(** Strip zeros at the end of a digit list (only needed after a carry). *)
-Definition strip_trailing_zeros (ds : list Z) : list Z :=
-  let fix go (r : list Z) :=
-    match r with
-    | 0 :: tl => go tl
-    | _ => r
-    end in
-  rev (go (rev ds)).
-
 Definition with_sign (s : bool) (body : list N) : list N :=
   if s then ch_minus :: body else body.
 
@@ -493,7 +484,6 @@ Definition f64_to_display (x : float) : list N :=
   | S754_zero s => with_sign s [ch_0]
   | S754_finite s m e =>
       let (ds, k) := shortest_digits (Zpos m) e in
-      let ds := match strip_trailing_zeros ds with [] => [0] | l => l end in
       with_sign s (digits_to_dec_str ds k)
   end.
 
@@ -626,9 +616,56 @@ Definition f64_parse (s : list N) : option float :=
       | Some (D, E) => Some (f64_of_decimal neg D E)
       | None =>
           let lower := map ascii_lower body in
-          if str_eqb lower s_nan then Some nan
-          else if str_eqb lower s_inf || str_eqb lower s_infinity
+          if fio_str_eqb lower s_nan then Some nan
+          else if fio_str_eqb lower s_inf || fio_str_eqb lower s_infinity
           then Some (if neg then neg_infinity else infinity)
           else None
       end
   end.
+
+(* ------------------------------------------------------------------ *)
+(** ** Sanity examples (checked by computation at compile time)
+
+    The systematic validation against the Rust implementation is done by
+    /verif/tools/floatio_check.py; these are only quick regression anchors. *)
+
+Example ex_display_int   : f64_to_display (f64_of_Z 7) = [55]%N.                      (* "7" *)
+Proof. vm_compute. reflexivity. Qed.
+Example ex_display_tenth : f64_to_display (f64_of_ratio false 1 10) = [48; 46; 49]%N. (* "0.1" *)
+Proof. vm_compute. reflexivity. Qed.
+Example ex_display_negz  : f64_to_display neg_zero = [45; 48]%N.                      (* "-0" *)
+Proof. vm_compute. reflexivity. Qed.
+Example ex_display_1e21  :
+  f64_to_display (f64_of_Z (10 ^ 21)) = 49%N :: repeat 48%N 21.                       (* no exponent *)
+Proof. vm_compute. reflexivity. Qed.
+Example ex_display_1em7  :
+  f64_to_display (f64_of_ratio false 1 (10 ^ 7))
+  = [48; 46; 48; 48; 48; 48; 48; 48; 49]%N.                                           (* "0.0000001" *)
+Proof. vm_compute. reflexivity. Qed.
+Example ex_fixed_half    : f64_to_fixed (f64_of_ratio false 1 2) 0 = [48]%N.          (* 0.5 -> "0" *)
+Proof. vm_compute. reflexivity. Qed.
+Example ex_fixed_1_5     : f64_to_fixed (f64_of_ratio false 3 2) 0 = [50]%N.          (* 1.5 -> "2" *)
+Proof. vm_compute. reflexivity. Qed.
+Example ex_fixed_2_5     : f64_to_fixed (f64_of_ratio false 5 2) 0 = [50]%N.          (* 2.5 -> "2" *)
+Proof. vm_compute. reflexivity. Qed.
+Example ex_fixed_eighth  : f64_to_fixed (f64_of_ratio false 1 8) 2 = [48; 46; 49; 50]%N. (* "0.12" *)
+Proof. vm_compute. reflexivity. Qed.
+Example ex_fixed_0995    :                                                            (* 0.995 -> "0.99" *)
+  f64_to_fixed (f64_of_ratio false 995 1000) 2 = [48; 46; 57; 57]%N.
+Proof. vm_compute. reflexivity. Qed.
+Example ex_fixed_neg_small :                                                          (* -0.001 -> "-0.00" *)
+  f64_to_fixed (f64_of_ratio true 1 1000) 2 = [45; 48; 46; 48; 48]%N.
+Proof. vm_compute. reflexivity. Qed.
+Example ex_round_ties_away : f64_to_bits (f64_round (f64_of_ratio true 5 2)) = f64_to_bits (f64_of_Z (-3)).
+Proof. vm_compute. reflexivity. Qed.
+Example ex_parse_midpoint :                                                           (* 2^53 + 1 ties to even *)
+  option_map f64_to_bits (f64_parse (Z_to_dec 9007199254740993))
+  = Some (f64_to_bits (f64_of_Z 9007199254740992)).
+Proof. vm_compute. reflexivity. Qed.
+Example ex_parse_bad : f64_parse [46]%N = None /\ f64_parse [] = None /\ f64_parse [49; 95; 48]%N = None.
+Proof. vm_compute. repeat split. Qed.
+Example ex_parse_huge_exp :                                                           (* "1e999999999" -> inf *)
+  option_map f64_to_bits (f64_parse ([49; 101] ++ repeat 57 9)%N) = Some bits_exp_inf.
+Proof. vm_compute. reflexivity. Qed.
+Example ex_as_i32_sat : f64_as_i32 (f64_of_Z 2147483648) = 2147483647 /\ f64_as_u32 (f64_of_Z (-5)) = 0.
+Proof. vm_compute. split; reflexivity. Qed.
